@@ -4,7 +4,8 @@
  *    C09_KILL_MODE=after  : just after it completed
  *    C09_KILL_MODE=short  : if it is a write/pwrite, perform only the first half of it (n/2 bytes), then kill
  * (SIGKILL to the whole process, so no atexit handler, no stdio flush, no other thread survives).
- * time() reports C09_FAKE_TIME when set, so that a killed run and its un-killed twin write the same bytes.
+ * time() reports C09_FAKE_TIME when set, and statfs() then reports fixed total/free block counts (the content file records the
+ * free space of every disk), so that a killed run and its un-killed twin write the same bytes.
  *
  * Numbered (state-changing): open/openat/creat with O_CREAT|O_TRUNC|O_WRONLY|O_RDWR, write, pwrite, ftruncate, truncate,
  * fsync, fdatasync, rename, unlink, remove, close of a descriptor opened for writing.
@@ -24,6 +25,7 @@
 #include <time.h>
 #include <unistd.h>
 #include <sys/stat.h>
+#include <sys/vfs.h>
 #include <sys/syscall.h>
 #include <sys/types.h>
 
@@ -494,4 +496,44 @@ time_t time(time_t* t)
 	if (t)
 		*t = v;
 	return v;
+}
+
+static void freeze_fs(struct statfs* st)
+{
+	st->f_bsize = 4096;
+	st->f_frsize = 4096;
+	st->f_blocks = 1000000;
+	st->f_bfree = 500000;
+	st->f_bavail = 500000;
+}
+
+int statfs(const char* path, struct statfs* st)
+{
+	static int (*real)(const char*, struct statfs*);
+	int r;
+	const char* e = getenv("C09_FAKE_TIME");
+	if (!real)
+		real = dlsym(RTLD_NEXT, "statfs");
+	r = real(path, st);
+	if (r == 0 && e && *e)
+		freeze_fs(st);
+	return r;
+}
+
+int statfs64(const char* path, struct statfs64* st)
+{
+	static int (*real)(const char*, struct statfs64*);
+	int r;
+	const char* e = getenv("C09_FAKE_TIME");
+	if (!real)
+		real = dlsym(RTLD_NEXT, "statfs64");
+	r = real(path, st);
+	if (r == 0 && e && *e) {
+		st->f_bsize = 4096;
+		st->f_frsize = 4096;
+		st->f_blocks = 1000000;
+		st->f_bfree = 500000;
+		st->f_bavail = 500000;
+	}
+	return r;
 }
